@@ -3,7 +3,7 @@
    theorems of Props/C11.v speak about. *)
 From Coq Require Import NArith ZArith List.
 From BU Require Import Base.Exn Base.Bytes Gen.Consts Gen.CodecConsts.
-From BU Require Model.Base58 Model.Base58Xmr Model.ConvertBits Model.Base32 Model.SS58.
+From BU Require Model.Base58 Model.Base58Xmr Model.ConvertBits Model.Base32 Model.SS58 Model.Scale.
 Import ListNotations.
 Open Scope N_scope.
 
@@ -36,3 +36,13 @@ Definition ss58_decode (blake2b512 : list N -> list N) :=
               ss58_ck_prefix blake2b512.
 Definition ss58_format_bytes := SS58.format_bytes ss58_simple_max.
 Definition ss58_parse_header := SS58.parse_header ss58_simple_max.
+
+(* ---- Substrate SCALE encoders ---- *)
+Definition scale_compact_encode := Scale.compact_encode scale_single_max scale_two_max scale_four_max scale_big_max.
+Definition scale_bytes_encode := Scale.bytes_encode scale_single_max scale_two_max scale_four_max scale_big_max.
+(* SubstrateScaleU8/16/32/64/128/256Encoder: kind k = 0..5 selects the byte length of the k-th class *)
+Definition scale_uint_encode (kind : nat) (v : Z) : res (list N) :=
+  match nth_error scale_uint_byte_lens kind with
+  | Some w => Scale.uint_encode w v
+  | None => Err (Foreign 0)
+  end.
